@@ -1,15 +1,16 @@
 (* C06 — find_jobs returns exactly the jobs a per-job reference evaluator accepts.
    Only statements; proofs are in SV.QueryProofs / SV.C06Proofs.  All theorems are parametric in the
    library oracles regex_search (re.search) and isclose (math.isclose). *)
-From SV Require Import Base Json PyVal Query QueryProofs C06Proofs C06DocProofs CorrC06.
+From SV Require Import Base Json PyVal PyEqEquiv Query QueryProofs C06Proofs C06DocProofs CorrC06.
 
 (* FULL STATEMENT (what the property says): for every corpus c and filter f,
      find c f = Ok R  ->  forall job, In job c -> (mem job R = true <-> matches job f = Ok true).
-   It is FALSE of the current code (see the C06_find_exact_refuted theorems).  Proved below under
-     NoSlotMerge  (no two different values under one key share a dict slot: True/1, -1/-1.0, ...),
-     SlotRefl     (follows from well-formed documents: C06_slotrefl_from_wf),
-     GoodLeaf     (implicit-equality probes do not share a slot with a different corpus value; the
-                   general case needs transitivity of Python == on nested values, not proved). *)
+   It is FALSE of the current code (see the C06_find_exact_refuted theorems).  Proved below
+   (C06_find_exact_partial, C06_find_job_ids_exact_partial) under the single semantic hypothesis
+     NoSlotMerge  (no two different values under one key share a dict slot: True/1, -1/-1.0, ...)
+   plus well-formedness of data and filter: distinct keys in mappings (wf), lists holding no mappings
+   and floats given normalised (deep_ok / PlainLeaf).  Python's == and the dict-slot relation are
+   proved to be equivalence relations on such values (C06_slot_relation_equivalence). *)
 
 (* logical structure: $and/$or/$not, flattening, early exit — exact for ANY per-expression oracle *)
 Theorem C06_find_result_exact_given_expressions :
@@ -48,11 +49,32 @@ Proof. exact probe_pointwise. Qed.
 Print Assumptions C06_probes_are_python_equality.
 
 Theorem C06_find_exact_partial : forall rs ic c fuel expr R,
-  NoDup (map fst c) -> NoSlotMerge c -> SlotRefl c -> AllLeaves (GoodLeaf c) fuel expr ->
+  NoDup (map fst c) -> NoSlotMerge c ->
+  Forall (fun jd => wf (snd jd) = true) c -> Forall (fun jd => deep_ok (snd jd) = true) c ->
+  AllLeaves PlainLeaf fuel expr ->
   find_result rs ic fuel c expr = Ok R ->
   forall i d, In (i, d) c -> matches rs ic true fuel d expr = Ok (mem i R).
-Proof. exact find_exact_partial. Qed.
+Proof. exact find_exact. Qed.
 Print Assumptions C06_find_exact_partial.
+
+(* the dict-slot relation of the typed index is an equivalence on mapping-free values *)
+Theorem C06_slot_relation_equivalence :
+  (forall a b, okv a = true -> okv b = true -> slot_eq a b = slot_eq b a) /\
+  (forall a b c, okv a = true -> okv b = true -> okv c = true ->
+     slot_eq a b = true -> slot_eq b c = true -> slot_eq a c = true).
+Proof. split; [exact slot_eq_sym|exact slot_eq_trans]. Qed.
+Print Assumptions C06_slot_relation_equivalence.
+
+(* implicit equality, incl. the int/float dual lookup, with no condition relating value and corpus *)
+Theorem C06_equality_expressions_exact : forall rs ic (c : corpus),
+  NoDup (map fst c) -> (forall key, SlotInj (map snd (kvals c key))) ->
+  (forall key v, In v (map snd (kvals c key)) -> slot_eq v v = true) ->
+  (forall key v, In v (map snd (kvals c key)) -> okv v = true) ->
+  forall key value R, contains_char dollar key = false -> flatv value = true -> probe_normal value = true ->
+    find_expression rs ic c key value = Ok R ->
+    forall i d, In (i, d) c -> match_expression rs ic d key value = Ok (mem i R).
+Proof. exact find_expression_exact_eq_full. Qed.
+Print Assumptions C06_equality_expressions_exact.
 
 Theorem C06_slotrefl_from_wf : forall c, Forall (fun jd => wf (snd jd) = true) c -> SlotRefl c.
 Proof. exact SlotRefl_wf. Qed.
@@ -104,10 +126,12 @@ Theorem C06_find_job_ids_exact_partial : forall rs ic fuel jobs f pf R,
   add_prefix fuel f = Ok pf ->
   let inc := str_mem s_doc (root_keys fuel pf) in
   let c := map (job_doc inc) jobs in
-  NoDup (map fst c) -> NoSlotMerge c -> SlotRefl c -> AllLeaves (GoodLeaf c) fuel pf ->
+  NoDup (map fst c) -> NoSlotMerge c ->
+  Forall (fun jd => wf (snd jd) = true) c -> Forall (fun jd => deep_ok (snd jd) = true) c ->
+  AllLeaves PlainLeaf fuel pf ->
   find_job_ids rs ic fuel jobs f = Ok R ->
   forall j, In j jobs -> job_matches rs ic true fuel f j = Ok (mem (j_id j) R).
-Proof. exact find_job_ids_exact. Qed.
+Proof. exact find_job_ids_exact_syntactic. Qed.
 Print Assumptions C06_find_job_ids_exact_partial.
 
 (* the full statement is false of the faithful model: witnesses (replayed on the implementation by
